@@ -527,4 +527,137 @@ class Live(Family):
         return f"{cls} {case['reader']} {'shrunk' if case['sndbuf'] or case['rcvbuf'] else 'default'} socket buffers, backends {obs['std']['used']}+{obs['pyo']['used']}"
 
 
-FAMILIES = [Pump(), Live()]
+# ------------------------------------------------------------------------------------------------
+# family 3: several connections to ONE server at the same time
+# ------------------------------------------------------------------------------------------------
+class Concurrent(Family):
+    """Two or three overlapping downloads with different bodies and reader speeds against one server
+    (each backend in turn).  At least one response is larger than every buffer on the way and its
+    client holds still (or aborts) while the others are served, so that it is parked half-written under
+    the transport's flow control when the other responses start.  Oracle per client: exactly its own
+    header + body, then EOF."""
+
+    name = "concurrent"
+    parallel = False
+    quick_n = 6
+    thorough_n = 60
+
+    SHAPES = [  # (readers in start order, sizes); deterministic part, divided with self.share
+        (["hold", "fast"], [1200000, 31]),
+        (["hold", "fast", "bursty"], [900000, 70000, 16385]),
+        (["abort", "fast"], [1500000, 20000]),
+        (["hold", "hold", "slow"], [700000, 400000, 5000]),
+        (["fast", "hold", "fast"], [16385, 1000000, 65537]),
+        (["stall", "fast"], [800000, 100]),
+    ]
+
+    def gen(self, rng: random.Random, n: int):
+        count = 0
+        for readers, szs in self.share(self.SHAPES):
+            yield self._case(rng, readers, szs)
+            count += 1
+        while count < n:
+            k = rng.choice([2, 2, 3])
+            readers = [rng.choice(["hold", "hold", "abort", "fast", "slow", "bursty", "stall"]) for _ in range(k)]
+            if not any(r in ("hold", "abort", "stall") for r in readers):
+                readers[rng.randrange(k)] = "hold"
+            if all(r == "hold" for r in readers):
+                readers[-1] = "fast"
+            szs = [rng.randint(400000, 3 * MIB) if r in ("hold", "abort", "stall") else rng.choice([rng.randint(0, 300), 16385, 65537, rng.randint(1000, 400000)])
+                   for r in readers]
+            yield self._case(rng, readers, szs)
+            count += 1
+
+    def _case(self, rng, readers, szs):
+        clients = []
+        for r, sz in zip(readers, szs):
+            d = gen_dims(rng, sz, True)
+            d.update({"reader": r, "rcvbuf": rng.choice([2048, 8192, None]) if r not in ("hold", "abort", "stall") else rng.choice([2048, 8192])})
+            clients.append(d)
+        return {"clients": clients, "sndbuf": rng.choice([4096, 16384]), "async": rng.random() < 0.3}
+
+    def impl(self, case):
+        from nauyaca.protocol.response import GeminiResponse
+
+        bodies = [make_body(c) for c in case["clients"]]
+        calls: list[str] = []
+
+        def mk(req):
+            i = int(req.path[2:])
+            calls.append(req.path)
+            c = case["clients"][i]
+            return GeminiResponse(c["status"], c["meta"], bodies[i])
+
+        if case["async"]:
+            async def handler(req):
+                await asyncio.sleep(0)
+                return mk(req)
+        else:
+            handler = mk
+        wants = []
+        for c, b in zip(case["clients"], bodies):
+            wh, wb = wire_of(type("R", (), {"status": c["status"], "meta": c["meta"], "body": b})())
+            wants.append({"header": wh.hex(), "blen": len(wb), "bsha": hashlib.sha256(wb).hexdigest()})
+        obs: dict = {"want": wants}
+        for backend in ("std", "pyo"):
+            calls.clear()
+            sinks = [tls_peer._Sink() for _ in case["clients"]]
+            specs = [{"path": f"/c{i}", "reader": c["reader"], "rcvbuf": c["rcvbuf"], "seed": c["seed"]} for i, c in enumerate(case["clients"])]
+            with tls_live.LiveServer(backend, mode="factory", handler=handler, sndbuf=case["sndbuf"]) as srv:
+                res = tls_live.fetch_overlapping(srv.port, specs, sinks, stall=lambda: srv.advance(stall_seconds()))
+            out = []
+            for sk, r in zip(sinks, res):
+                g = sk.result()
+                g.update({"eof": r.get("eof", "error:no-result")})
+                out.append(g)
+            obs[backend] = out
+            obs[backend + "_calls"] = sorted(calls)
+        first = case["clients"][0]
+        units = len(bodies[0])
+        self._tok = (core.case_digest(case), resp_token(first["status"], first["meta"], bodies[0], units > SMALL), units > SMALL, wants[0]["blen"])
+        return obs
+
+    def model(self, case):
+        t = getattr(self, "_tok", None)
+        if t is None or t[0] != core.case_digest(case):
+            self.impl(case)
+            t = self._tok
+        return f"c06 all 0 0 n {t[1]} {t[3]}" if t[2] else f"c06 all 0 0 r {t[1]}"
+
+    def expect(self, case, out):
+        return parse_model(out)
+
+    def same(self, expected, obs):
+        # the model speaks about one connection: the first client's stream on both backends
+        # (an aborting client chose not to read on; its prefix is checked by the oracle)
+        if "model" in expected:
+            return False
+        for b in ("std", "pyo"):
+            g = obs[b][0]
+            if g["eof"] == "aborted-by-client":
+                continue
+            if not (expected["header"] == g["header"] and expected["blen"] == g["blen"] and (expected["bsha"] is None or expected["bsha"] == g["bsha"])):
+                return False
+        return True
+
+    def oracle(self, case, obs):
+        for b in ("std", "pyo"):
+            for i, (g, w) in enumerate(zip(obs[b], obs["want"])):
+                who = f"client {i} of {len(obs['want'])} ({case['clients'][i]['reader']} reader, {w['blen']}-byte body; all readers: {[c['reader'] for c in case['clients']]})"
+                if g["eof"] == "aborted-by-client":
+                    # it stopped on its own; what it did receive must still be its own response
+                    if g["header_complete"] and g["header"] != w["header"]:
+                        return (f"concurrent-{b}-header-mismatch", f"{who}: foreign header {bytes.fromhex(g['header'])[:60]!r}")
+                    continue
+                v = judge(f"concurrent-{b}", g, bytes.fromhex(w["header"]), w["blen"], w["bsha"])
+                if v:
+                    return (v[0], f"{who}: {v[1]}")
+            if len(obs[b + "_calls"]) != len(obs["want"]):
+                return (f"concurrent-{b}-handler-calls", f"{len(obs[b + '_calls'])} handler calls for {len(obs['want'])} requests")
+        return None
+
+    def key(self, case, obs):
+        return f"{len(case['clients'])} clients: {'+'.join(sorted(c['reader'] for c in case['clients']))}"
+
+
+FAMILIES = [Pump(), Live(), Concurrent()]
